@@ -5,11 +5,17 @@ cd $wt || exit 2
 python=/venv/bin/python
 where=$($python -c "import xtuml; print(xtuml.__file__)")
 case "$where" in $wt/*) ;; *) echo "wrong import path $where"; exit 2;; esac
+# ply never re-validates a cached lexer table, and without tables in the worktree the editable install falls back to those
+# of /repo: regenerate them in the worktree for the state under test
+regen() { rm -f xtuml/__*tab.py bridgepoint/__*tab.py; $python -c "import sys; sys.meta_path[:] = [f for f in sys.meta_path if not str(getattr(f, '__module__', type(f).__module__)).startswith('__editable__')]; import xtuml, bridgepoint.oal as o; xtuml.ModelLoader().input(''); o.parse('x = 1;')" >/dev/null 2>&1; }
+regen
 suite=$($python -m pytest -q -p no:cacheprovider --timeout=900 2>&1 | tail -1)
 $python demo.py > /tmp/demo_with.out 2>&1; with=$?
 git diff -- xtuml bridgepoint > /tmp/confirm_$$.patch; git apply -R /tmp/confirm_$$.patch
+regen
 $python demo.py > /tmp/demo_without.out 2>&1; without=$?
 git apply /tmp/confirm_$$.patch; rm -f /tmp/confirm_$$.patch
+regen
 echo "suite: $suite | demo with change: exit $with | without: exit $without"
 [ "$with" = 1 ] && [ "$without" = 0 ] || { echo "NOT CONFIRMED"; exit 1; }
 case "$suite" in *"244 passed"*) ;; *) echo "NOT CONFIRMED (suite)"; exit 1;; esac
